@@ -19,7 +19,7 @@ func c17Cfg(tier string) c17.Config {
 		"eoa u2 delegate v0 30000000000000000000", "eoa u2 undelegate v0 20000000000000000000", "eoa u2 redelegate v0 v1 19000000000000000000",
 		"fwd3 u2 delegate v0 2 | vote 1 1", "fwd3 u2 vote 1 3 | delegate v1 1", "fwd3 u2 delegate v0 2 | vote 7 1", "fwd3 u2 wvote 1 1:60,3:40 | undelegate v0 1",
 		"fake u2 delegate v0 5", "fake u2 undelegate v0 1", "fake u2 vote 1 1",
-		"eoa u2 vote 1 1", "eoa u2 vote 1 3", "eoa u2 vote 1 9", "eoa u2 vote 7 1", "eoa u2 wvote 1 1:60,3:40", "eoa u2 wvote 1 1:60,3:30", "eoa u2 wvote 1 1:100", "fwd u2 vote 1 2",
+		"eoa u2 vote 1 1", "eoa u2 vote 1 3", "eoa u2 vote 1 9", "eoa u2 vote 7 1", "eoa u2 wvote 1 1:60,3:40", "eoa u2 wvote 1 1:60,3:30", "eoa u2 wvote 1 1:100", "eoa u2 wvote 1 1:50", "fwd u2 vote 1 2",
 		"advance", "slash",
 	}}
 	if tier == "thorough" {
